@@ -10,6 +10,7 @@ mod fileck;
 mod fresh;
 mod iosim;
 mod metax;
+mod optx;
 mod pool;
 mod real;
 mod refmodel;
@@ -47,6 +48,7 @@ fn main() {
                 "faultx" => faultx::worker(idx),
                 "schedx" => schedx::worker(idx),
                 "c10laps" => c10::lap_worker(idx),
+                "optx" => optx::worker(idx),
                 _ => usage(),
             }
         }
@@ -89,6 +91,7 @@ fn main() {
                 Some("faultx") => faultx::replay(&v),
                 Some("schedx") => schedx::replay(&v),
                 Some("c10laps") => c10::replay_lap(&v),
+                Some("optx") => optx::replay_odd(&v),
                 _ => {
                     eprintln!("unknown engine in replay file");
                     2
@@ -144,6 +147,15 @@ fn run_check(id: &str, tier: Tier) -> i32 {
             let (txs, rows) = c10::run_laps(&mut c);
             c.cov("lap_transactions", serde_json::json!(txs));
             c.cov("laps", serde_json::json!(rows));
+            c.finish()
+        }
+        "C16" => {
+            let mut c = Check::new(id, tier, "exploration");
+            c.assumptions = vec![
+                "configurations: the full product {1024, 1032, 2048, 3000, 4096, 5000, 16384, 65536, 1 MiB} x {4, 32, 1000} x strict x populate; histories use key / value sizes that are fractions of the page size; direct_writes is outside the property".into(),
+                "oracle: the reference model (so all configurations agree with each other), fileck, DB::check(); an unusual page size may be refused by a panic or Err at the builder or at open, anything else must work".into(),
+            ];
+            optx::run(&mut c);
             c.finish()
         }
         "C04" => {
